@@ -77,6 +77,9 @@ const (
 func RunOneMode(t *testing.T, prop string, seed uint64, plan, sched []int, mode int, params map[string]int, trace bool) (res *Result) {
 	res = &Result{Prop: prop, Seed: seed}
 	start := time.Now()
+	worldMu.Lock()
+	lastRun.prop, lastRun.seed, lastRun.params = prop, seed, params
+	worldMu.Unlock()
 	runner := Runners[prop]
 	if runner == nil {
 		res.Harness = "unknown property " + prop
@@ -156,6 +159,66 @@ func RunOneMode(t *testing.T, prop string, seed uint64, plan, sched []int, mode 
 			res.Violations = append(res.Violations, Violation{Class: prop + ".data-race", Detail: "unsynchronised accesses: " + key + "\n" + firstLines(r.Text, 60)})
 		}
 	}
+	return res
+}
+
+// lastRun identifies the run in progress (for the watchdog).
+var lastRun struct {
+	prop   string
+	seed   uint64
+	params map[string]int
+}
+
+// HangVerdict is called by the watchdog (a goroutine outside the bubble) when
+// no scheduler step has happened for a long time, with a dump of all goroutine
+// stacks. The scheduler is then stuck inside synctest.Wait because some
+// goroutine of the bubble is blocked in a way the bubble does not count as
+// durable - in practice a sync.Mutex / RWMutex wait. Two cases:
+//
+//   - the mutex is held by a goroutine the scheduler keeps parked at a gate: a
+//     limit of the simulator (it cannot see the wait), never a verdict -> nil;
+//   - nothing is enabled: no goroutine could be released by the scheduler, every
+//     live goroutine of the wallet is blocked off-gate (channel, WaitGroup,
+//     mutex) and none of them sleeps on a timer. Nobody will ever release the
+//     mutex: the wallet's goroutines block each other permanently. That is a
+//     state predicate like the channel deadlock of 3.1, and a verdict.
+//
+// The result carries the tapes consumed so far: replaying them runs into the
+// same state (and the same 90 s of silence) again.
+//
+//go:norace
+func HangVerdict(dump string) *Result {
+	worldMu.Lock()
+	w := currentWorld
+	prop, seed, params := lastRun.prop, lastRun.seed, lastRun.params
+	worldMu.Unlock()
+	if w == nil || w.S == nil || prop == "" {
+		return nil
+	}
+	if len(w.S.Enabled()) > 0 || !w.S.blockedOffGate() {
+		return nil
+	}
+	var involved []string
+	mutexWait := false
+	for _, g := range strings.Split(dump, "\n\n") {
+		if !strings.Contains(g, "massnet.org/mass-wallet/") || strings.Contains(g, "verifsim.(*Sched).Gate") {
+			continue
+		}
+		if strings.Contains(g, "time.Sleep") || strings.Contains(g, "time.(*Timer)") {
+			return nil
+		}
+		if strings.Contains(g, "sync.(*Mutex).Lock") || strings.Contains(g, "sync.(*RWMutex).Lock") || strings.Contains(g, "sync.(*RWMutex).RLock") {
+			mutexWait = true
+		}
+		involved = append(involved, firstLines(g, 14))
+	}
+	if !mutexWait {
+		return nil
+	}
+	res := &Result{Prop: prop, Seed: seed, Stats: w.Stats, Steps: w.S.Steps, TraceHash: fmt.Sprintf("%016x", w.S.TraceHash),
+		Plan: w.Plan.Vals, Sched: w.S.Tape.Vals, PlanUsed: w.Plan.Used, SchedUsed: w.S.Tape.Used, Trace: w.S.Trace, Log: w.Log,
+		Extra: map[string]interface{}{"params": params, "hang_verdict": true}}
+	res.Violations = []Violation{{Class: prop + ".mutex-deadlock", Detail: "the wallet's goroutines block each other permanently: nothing is enabled, every live goroutine waits off-gate and at least one waits for a mutex that no runnable goroutine holds; parked/blocked: " + fmt.Sprint(w.S.ParkedSummary()) + "\n" + strings.Join(involved, "\n\n")}}
 	return res
 }
 
